@@ -24,15 +24,16 @@ META = dict(
          "exits placed in on_open_position relative to the price seen there, cancel, liquidate) for chunks of 1-3 minutes, trading "
          "candle = chunk or a multiple, aligned and ragged lengths, and checks that inside antecedent (<= 1 resting fill per trading "
          "candle in the normal run) and quantifier (resting prices spaced wider than the candle moves) both simulators execute the "
-         "same orders (side, type, price, minute) and reach the same position and balance - for the repaired inner loop without "
-         "exception, for the loop as it is in the tree modulo the one known class (fill in a gapped minute inside a chunk), whose "
-         "witnesses TLC lists and the harness reproduces on the code. For the code, TLC compares executed orders, closed trades and "
+         "same orders (side, type, price, minute) and reach the same position and balance (the variant of the fast loop found in "
+         "the tree is detected on two canonical scenarios; for the former loop TLC lists its divergences - class inner-gap-fill - "
+         "and those witnesses are replayed on the code as regression scenarios). For the code, TLC compares executed orders, closed trades and "
          "final balances of real paired runs over spot/futures, trading 1m..1h, smaller/larger data routes, fees, leverage modes, "
          "warm-up, ragged lengths; pairs outside the precondition are counted and discarded. Bounded: lattice/depth of the model, "
          "quantity 1 and fee 0 in the model, finitely many random sessions, the policy family of make_policy_strategy.",
     note="Trusted: TLC, the JSON encoder, the recorder wrappers (Order.execute + strategy callbacks), determinism of "
          "research.backtest. The spacing quantifier is formalised as: in no trading window do two different resting-order prices of "
-         "the normal run lie inside the window's price range. Known finding: inner-gap-fill (proposed repair in fixes/).",
+         "the normal run lie inside the window's price range. Findings of this check (both fixed): trailing partial chunk raised ValueError (f8ad570d); "
+         "inner-gap-fill - minutes inside a chunk were not jump-fixed (651f7be3).",
     design_ref="4/C12")
 
 TFS = ['1m', '3m', '5m', '15m', '30m', '1h']
